@@ -30,6 +30,7 @@ HANDLER_SECTIONS = ['Handlers/' + n for n in ('getSession', 'logout', 'logoutLoc
     ['pkg/handler/handler.go', 'pkg/handler/handler_sso_proxy.go', 'pkg/handler/handler_sso_server.go', 'pkg/handler/reverseproxy.go', 'pkg/openid/client/login_callback.go', 'pkg/openid/oauth2.go', 'pkg/handler/error.go', 'pkg/url/redirect.go', 'pkg/url/validator.go', 'pkg/handler/acr/acr.go', 'pkg/ingress/ingress.go', 'pkg/openid/client/login.go']
 ENVELOPE_SECTIONS = ['Envelope/' + n for n in ('newCrypter', 'encryptionKeyOrGenerate', 'crypterEncrypt', 'crypterDecrypt', 'cookieEncrypt', 'cookieDecrypt', 'cookieGet', 'cookieGetDecrypted', 'cookieEncryptAndSet', 'cookieSet', 'newTicket', 'ticketCrypter', 'ticketKey', 'ticketSetCookie', 'getTicket', 'encryptedDataDecrypt', 'dataEncrypt', 'dataValidate', 'sessionEncrypt', 'sessionKey', 'sessionSetCookie', 'sessionAccessToken', 'newSession')]
 PROVIDER_SECTIONS = ['Provider/' + n for n in ('newTokens', 'parseIDToken', 'idTokenValidate', 'idTokenClaim', 'idTokenStringClaim', 'idTokenSid', 'idTokenAcr', 'authCodeGrant', 'refreshGrant', 'clientAuthenticationParams', 'makeAssertion', 'oauthPostRequest', 'newLogout', 'singleLogoutURL', 'logoutSetCookie', 'newLogoutCallback', 'postLogoutRedirectURI', 'logoutStateMismatchError', 'newLogoutFrontchannel', 'frontchannelSid', 'frontchannelMissingSid')]
+STARTUP_SECTIONS = ['Startup/' + n for n in ('mainRun', 'mainStandalone', 'mainSsoServer', 'mainSsoProxy', 'configValidate', 'validateUpstream', 'cookieCfgValidate', 'sameSiteValidate', 'ssoValidate', 'openidCfgValidate', 'providerValidate', 'providerValidateAcr', 'providerValidateLocale', 'providerValidateAlg', 'newClientConfig', 'newOpenidConfig', 'newProviderConfig', 'parseIngresses', 'newStore', 'configInitialize', 'newStandalone', 'newSSOProxy', 'newSSOServer', 'newManager', 'newReader')]
 HANDLER_TIE = (" Every control-flow path through the real logout / session / reverse-proxy handlers is enumerated from a statement-by-statement translation regenerated on each run (Gen/Handlers) and "
                "the kernel decides, over ALL paths, what the handler model assumes (Proofs/GenTie/Handlers): success answers only after the lookup-error guard and the delete, cookies cleared with the request's options first, "
                "the upstream token set only when the validated lookup and the ACR gate passed, and always then.")
@@ -338,8 +339,8 @@ PROPS = {
         'assumptions': ["classification of identifiers is trusted"],
     },
     'C20': {
-        'proofs': ['Ww.Proofs.C20', 'Ww.Proofs.GenTie.Ingress'],
-        'gen_sections': HANDLER_SECTIONS + [],
+        'proofs': ['Ww.Proofs.C20', 'Ww.Proofs.GenTie.Ingress', 'Ww.Proofs.GenTie.Startup', 'Ww.Proofs.GenTie.C09'],
+        'gen_sections': HANDLER_SECTIONS + STARTUP_SECTIONS + ENVELOPE_SECTIONS,
         'drivers': [{'name': 'c20'}],
         'reasons': ['C20.'],
         'class_fields': {'start20': ['key', 'ingress', 'clientid', 'jwk', 'secret', 'wellknown', 'mode', 'redis', 'cookiename', 'serverurl', 'domain', 'defaulturl', 'secure', 'samesite', 'upstream', 'shutdown', 'alg', 'acr', 'locale', 'disco', 'listening'],
@@ -348,7 +349,8 @@ PROPS = {
         'rule': "c20 driver: the REAL binary built from the working tree is launched (16 at a time) against a loopback discovery document, JWKS and miniredis with: the valid base configuration, every single deviation of 20 factors "
                 "(also inside both SSO modes), and random 2-3-factor combinations; settings supplied as flags or as WONDERWALL_* variables at random; observation = accepts TCP on the bind address within 4 s vs exits before. distinct = factor vector.",
         'level_text': "Proof: the model of the start-up chain (Validate: cookie, signing alg, SSO, upstream, shutdown periods; encryption key; client config; discovery metadata; store; ingresses; SSO redirect) reaches 'listen' IF AND ONLY IF the "
-                      "documented rules hold (both directions proved), for every configuration. The chain model is tied to the real binary by launching it across the configuration space; the documented rules are evaluated on each launch.",
+                      "documented rules hold (both directions proved), for every configuration. The chain model is tied to the real binary by launching it across the configuration space; the documented rules are evaluated on each launch. "
+                      "Each check of the chain is also decided on the CURRENT source (Gen/Startup, regenerated on every run, all control-flow paths): run() reaches server.Start on one kind of path only - after Initialize (whose last step is Validate), the key, and the mode's constructor all succeeded; Validate = cookie, openid, sso, upstream, shutdown periods in this order; insecure cookies only when every ingress parsed, is localhost and http (checked inside the loop); SSO needs store, cookie name and its mode's URL / domain; discovery is fetched, decoded and validated (acr incl. legacy mapping, locale, alg); a client config needs JWK or secret, provider, client id, well-known URL; at least one ingress and every one parsed; a configured store must answer PING; the key's length check (Gen/Envelope).",
         'level_note': "Trusted: Lean kernel; viper/pflag binding and each parser's verdict on its setting (the model takes 'parses / does not parse' as input; the driver supplies representative texts); provider-specific variables (IDPORTEN_*, AZURE_APP_*) are not in the quick tier.",
         'technique': 'Lean 4 equivalence proof (validation chain <-> documented rules) + real-binary launches over the configuration space',
         'trusted': ["viper/pflag binding", "net/url, base64, jwk parsers' verdicts"],
